@@ -618,12 +618,15 @@ def _render(obj, kw, io):
 
 
 def _cdiff(ref, got):
-    """how a component render differs from its reference (for the signature)"""
+    """how a component render differs from its reference, coarse (for the signature): a crash site, only the UTF-8/ASCII
+    symbol choice, nothing printed, or just 'differs'"""
     if isinstance(got[0], str) and got[0].startswith("crash:"):
         return got[0]
-    if ref[0] != got[0]:
-        return textclass(ref[0], got[0])
-    return "stderr~" + textclass(ref[1], got[1])
+    which = 0 if ref[0] != got[0] else 1
+    d = textclass(ref[which], got[which])
+    if d not in ("utf8-symbols", "<empty>"):
+        d = "differs"
+    return d if which == 0 else "stderr-" + d
 
 
 def component_ref(key):
@@ -752,7 +755,7 @@ def explore_components(rep, seq_depth, pair_ios):
             sig = "component-twice:%s:%s:on-%s" % (g.split("/")[0], c["d"], c["io"])
             what = "%s rendered twice on one %s IO: outputs differ from the fresh render" % (c["factory"], c["io"])
         else:
-            sig = "other-object:%s:after:%s:%s:on-%s" % (g, FACTORIES[c["first"]][0], c["d"], c["io"])
+            sig = "other-object:%s:after:%s:%s:on-%s" % (g.split("/")[0], FACTORIES[c["first"]][0].split("/")[0], c["d"], c["io"])
             what = "%s on %s, after %s had been rendered on %s in the same process, differs from its render in a fresh process" % (
                 c["factory"], c["io"], c["first"], c["first_io"])
         c = {k: v for k, v in c.items() if k != "d"}
